@@ -9,89 +9,252 @@ import (
 	"strings"
 )
 
-// SinkWrites (C18): for every `Write*` method of common/zero_copy_sink.go, which bytes of the region it obtains from
-// NextBytes it assigns on every control path (or which other Write* methods it delegates to).
+// SinkWrites (C18): for every `Write*` method of common.ZeroCopySink and every control path through it, which bytes of the
+// region it obtains from NextBytes are assigned (or which other Write* methods it delegates to).
 //
-// The extraction is a tiny symbolic walk over the method body. It never fails: a statement that touches the region in a
-// way the walk does not understand marks the path `unknown`, and the theorem `C18_sink_writes_cover` (Props/C18.lean)
-// — every path assigns every byte of the region it keeps — no longer checks. So a rewrite that leaves a byte of
-// recycled memory unassigned breaks a proof obligation of C18 (and only of C18) before any failing input is found.
+// The extraction is a small path-sensitive symbolic walk. It is keyed on ROLES, not on the text of the current source:
+//
+//   - the region is whatever variable receives `recv.NextBytes(n)` (directly or through a same-package wrapper that just
+//     returns NextBytes of its parameter); every variable defined as a sub-slice of it (`payload := buf[1:]`) and every
+//     slice expression over it (`buf[1:]`, `payload[2:4]`) is an ALIAS with a known offset;
+//   - integers are evaluated: literals, function- and file-level constants, locals with a known value on this path
+//     (`size = 3`, `k := 9`, `var b byte`), `+ - * /`, integer conversions;
+//   - a write is `alias[i] = e`, `binary.{Little,Big}Endian.PutUintNN(alias, e)`, `copy(alias, src)` when the region was
+//     obtained with `len(src)`, an index / range loop that assigns `alias[i]` for every i below a constant or below
+//     `len(src)`, or a same-package helper that is handed an alias and does one of these (walked recursively);
+//   - if/else chains, tag-less and tagged switches and early returns all fork paths in the same way;
+//   - a method (or path) without a region of its own "only delegates" when it calls other Write* methods, however the
+//     argument was computed (`var b byte; if data { b = 1 }; self.WriteByte(b)`).
+//
+// The walk never fails: a use of the region it does not understand marks the path `unknown`, and the theorem
+// `C18_sink_writes_cover` (Props/C18.lean) — every path assigns every byte of the region it keeps — no longer checks.
+// A byte that is provably left unassigned on some path fails the same theorem.
 func init() { Register("SinkWrites", genSinkWrites) }
 
 type swPath struct {
-	method   string
-	cond     string // readable description of the branch
-	region   string // variable holding NextBytes(..)
-	obtained int    // constant argument of NextBytes, -1 = len(<srcArg>)
-	srcArg   string
-	all      bool // copy(region, srcArg) with obtained = len(srcArg)
-	written  map[int]bool
-	sizeVar  map[string]int // integer variables with a known constant value (size = 3)
-	backup   int
-	unknown  string
-	calls    []string // self.Write* calls (delegation)
+	method    string
+	conds     []string
+	hasRegion bool
+	obtained  int    // constant size of the region, -1 = len(srcArg)
+	srcArg    string // flat text of the expression whose length sized the region
+	all       bool
+	written   map[int]bool
+	backup    int
+	unknown   string
+	calls     []string
+	done      bool // the path has returned
+
+	aliases map[string]int // variable -> offset into the region
+	ints    map[string]int // variables / constants with a known integer value on this path
 }
 
 func (p *swPath) clone() *swPath {
 	q := *p
+	q.conds = append([]string{}, p.conds...)
+	q.calls = append([]string{}, p.calls...)
 	q.written = map[int]bool{}
 	for k := range p.written {
 		q.written[k] = true
 	}
-	q.sizeVar = map[string]int{}
-	for k, v := range p.sizeVar {
-		q.sizeVar[k] = v
+	q.aliases = map[string]int{}
+	for k, v := range p.aliases {
+		q.aliases[k] = v
 	}
-	q.calls = append([]string{}, p.calls...)
+	q.ints = map[string]int{}
+	for k, v := range p.ints {
+		q.ints[k] = v
+	}
 	return &q
 }
 
-func swIntLit(e ast.Expr) (int, bool) {
-	if b, ok := e.(*ast.BasicLit); ok && b.Kind == token.INT {
-		v, err := strconv.ParseInt(b.Value, 0, 64)
-		return int(v), err == nil
+func (p *swPath) mark(why string) {
+	if p.unknown == "" {
+		p.unknown = why
+	}
+}
+
+type swWalker struct {
+	fset   *token.FileSet
+	funcs  map[string]*ast.FuncDecl
+	consts map[string]int // package-level integer constants
+	recv   string
+	defs   *defTable
+	depth  int
+}
+
+const swMaxPaths = 512
+
+func isIntConv(name string) bool {
+	switch name {
+	case "int", "int8", "int16", "int32", "int64", "uint", "uint8", "uint16", "uint32", "uint64", "byte", "uintptr":
+		return true
+	}
+	return false
+}
+
+// strip integer conversions and parentheses
+func swCore(e ast.Expr) ast.Expr {
+	for {
+		switch x := e.(type) {
+		case *ast.ParenExpr:
+			e = x.X
+			continue
+		case *ast.CallExpr:
+			if id, ok := x.Fun.(*ast.Ident); ok && len(x.Args) == 1 && isIntConv(id.Name) {
+				e = x.Args[0]
+				continue
+			}
+		}
+		return e
+	}
+}
+
+func (w *swWalker) evalInt(e ast.Expr, p *swPath) (int, bool) {
+	switch x := swCore(e).(type) {
+	case *ast.BasicLit:
+		if x.Kind == token.INT {
+			v, err := strconv.ParseInt(x.Value, 0, 64)
+			return int(v), err == nil
+		}
+		if x.Kind == token.CHAR && len(x.Value) == 3 {
+			return int(x.Value[1]), true
+		}
+	case *ast.Ident:
+		if v, ok := p.ints[x.Name]; ok {
+			return v, true
+		}
+		if _, shadow := p.aliases[x.Name]; !shadow {
+			if v, ok := w.consts[x.Name]; ok {
+				return v, true
+			}
+		}
+	case *ast.BinaryExpr:
+		a, ok1 := w.evalInt(x.X, p)
+		b, ok2 := w.evalInt(x.Y, p)
+		if ok1 && ok2 {
+			switch x.Op {
+			case token.ADD:
+				return a + b, true
+			case token.SUB:
+				return a - b, true
+			case token.MUL:
+				return a * b, true
+			case token.QUO:
+				if b != 0 {
+					return a / b, true
+				}
+			case token.SHL:
+				if b >= 0 && b < 62 {
+					return a << uint(b), true
+				}
+			}
+		}
 	}
 	return 0, false
 }
 
-func swMentions(fset *token.FileSet, n ast.Node, name string) bool {
+// lenOf: e is `len(x)` (under conversions, after inlining simply-defined locals) → flat text of x
+func (w *swWalker) lenOf(e ast.Expr) (string, bool) {
+	c := swCore(inlineLocals(e, w.defs))
+	if ce, ok := c.(*ast.CallExpr); ok && len(ce.Args) == 1 {
+		if id, ok := ce.Fun.(*ast.Ident); ok && id.Name == "len" {
+			return flat(w.fset, stripParens(inlineLocals(ce.Args[0], w.defs))), true
+		}
+	}
+	return "", false
+}
+
+// regionOf: e denotes (a sub-slice of) the region → its offset
+func (w *swWalker) regionOf(e ast.Expr, p *swPath) (int, bool) {
+	switch x := stripParens(e).(type) {
+	case *ast.Ident:
+		off, ok := p.aliases[x.Name]
+		return off, ok
+	case *ast.SliceExpr:
+		if off, ok := w.regionOf(x.X, p); ok {
+			if x.Low == nil {
+				return off, true
+			}
+			if lo, ok := w.evalInt(x.Low, p); ok {
+				return off + lo, true
+			}
+		}
+	}
+	return 0, false
+}
+
+func (w *swWalker) mentionsRegion(n ast.Node, p *swPath) bool {
+	if n == nil || len(p.aliases) == 0 {
+		return false
+	}
 	found := false
 	ast.Inspect(n, func(x ast.Node) bool {
-		if id, ok := x.(*ast.Ident); ok && id.Name == name {
-			found = true
+		if id, ok := x.(*ast.Ident); ok {
+			if _, ok := p.aliases[id.Name]; ok {
+				found = true
+			}
 		}
-		return true
+		return !found
 	})
 	return found
 }
 
-// selfCall: `recv.Name(args)` → Name
-func swSelfCall(ce *ast.CallExpr, recv string) (string, bool) {
+func (w *swWalker) recvCall(ce *ast.CallExpr) (string, bool) {
 	if se, ok := ce.Fun.(*ast.SelectorExpr); ok {
-		if id, ok := se.X.(*ast.Ident); ok && id.Name == recv {
+		if id, ok := se.X.(*ast.Ident); ok && id.Name == w.recv {
 			return se.Sel.Name, true
 		}
 	}
 	return "", false
 }
 
-func swWalk(fset *token.FileSet, recv string, stmts []ast.Stmt, in []*swPath) []*swPath {
-	paths := in
-	for _, st := range stmts {
-		var next []*swPath
-		for _, p := range paths {
-			next = append(next, swStmt(fset, recv, st, p)...)
-		}
-		paths = next
+// nextBytesArg: ce is recv.NextBytes(a), or recv.wrapper(a..) where the wrapper's body is `return recv'.NextBytes(param)`;
+// returns the size expression in the caller's terms
+func (w *swWalker) nextBytesArg(ce *ast.CallExpr) (ast.Expr, bool) {
+	name, ok := w.recvCall(ce)
+	if !ok {
+		return nil, false
 	}
-	return paths
+	if name == "NextBytes" && len(ce.Args) == 1 {
+		return ce.Args[0], true
+	}
+	fd := w.funcs["ZeroCopySink."+name]
+	if fd == nil || fd.Body == nil || len(fd.Body.List) != 1 || fd.Type.Params == nil {
+		return nil, false
+	}
+	ret, ok := fd.Body.List[0].(*ast.ReturnStmt)
+	if !ok || len(ret.Results) != 1 {
+		return nil, false
+	}
+	inner, ok := stripParens(ret.Results[0]).(*ast.CallExpr)
+	if !ok || len(inner.Args) != 1 {
+		return nil, false
+	}
+	if se, ok := inner.Fun.(*ast.SelectorExpr); !ok || se.Sel.Name != "NextBytes" {
+		return nil, false
+	}
+	arg := swCore(inner.Args[0])
+	if _, isLit := arg.(*ast.BasicLit); isLit {
+		return arg, true
+	}
+	if id, ok := arg.(*ast.Ident); ok {
+		i := 0
+		for _, f := range fd.Type.Params.List {
+			for _, nm := range f.Names {
+				if nm.Name == id.Name && i < len(ce.Args) {
+					return ce.Args[i], true
+				}
+				i++
+			}
+		}
+	}
+	return nil, false
 }
 
-// calls on the receiver inside an expression (delegation such as `self.WriteVarUint(l) + l`)
-func collectSelfCalls(n ast.Node, recv string, p *swPath) {
+func (w *swWalker) collectCalls(n ast.Node, p *swPath) {
 	ast.Inspect(n, func(x ast.Node) bool {
 		if ce, ok := x.(*ast.CallExpr); ok {
-			if name, ok := swSelfCall(ce, recv); ok && (strings.HasPrefix(name, "Write") || name == "BackUp") && name != "BackUp" {
+			if name, ok := w.recvCall(ce); ok && strings.HasPrefix(name, "Write") {
 				p.calls = append(p.calls, name)
 			}
 		}
@@ -99,215 +262,588 @@ func collectSelfCalls(n ast.Node, recv string, p *swPath) {
 	})
 }
 
-func swStmt(fset *token.FileSet, recv string, st ast.Stmt, p *swPath) []*swPath {
-	mark := func(why string) []*swPath {
-		if p.unknown == "" {
-			p.unknown = why + ": " + strings.ReplaceAll(exprString(fset, st), "\n", " ")
+func (w *swWalker) write(p *swPath, from, n int) {
+	for i := 0; i < n; i++ {
+		if from+i >= 0 {
+			p.written[from+i] = true
 		}
-		return []*swPath{p}
 	}
-	switch s := st.(type) {
-	case *ast.IfStmt:
-		if s.Init != nil {
-			return mark("if with init")
+}
+
+func (w *swWalker) stmts(list []ast.Stmt, paths []*swPath) []*swPath {
+	for _, st := range list {
+		var next []*swPath
+		for _, p := range paths {
+			if p.done || p.unknown != "" {
+				next = append(next, p)
+				continue
+			}
+			next = append(next, w.stmt(st, p)...)
 		}
-		a := p.clone()
-		a.cond = strings.TrimSpace(p.cond + " " + exprString(fset, s.Cond))
-		out := swWalk(fset, recv, s.Body.List, []*swPath{a})
-		b := p.clone()
-		b.cond = strings.TrimSpace(p.cond + " !(" + exprString(fset, s.Cond) + ")")
-		switch e := s.Else.(type) {
-		case nil:
-			out = append(out, b)
-		case *ast.BlockStmt:
-			out = append(out, swWalk(fset, recv, e.List, []*swPath{b})...)
-		case *ast.IfStmt:
-			out = append(out, swStmt(fset, recv, e, b)...)
+		paths = next
+		if len(paths) > swMaxPaths {
+			for _, p := range paths {
+				p.mark("more than " + strconv.Itoa(swMaxPaths) + " control paths")
+			}
+			return paths
+		}
+	}
+	return paths
+}
+
+func (w *swWalker) text(n ast.Node) string { return flat(w.fset, n) }
+
+func (w *swWalker) fork(p *swPath, c string) *swPath {
+	q := p.clone()
+	q.conds = append(q.conds, c)
+	return q
+}
+
+// assign one `lhs = rhs` / `lhs := rhs` pair
+func (w *swWalker) assign(lhs, rhs ast.Expr, tok token.Token, p *swPath, st ast.Stmt) {
+	// alias[i] = e
+	if ix, ok := lhs.(*ast.IndexExpr); ok {
+		if off, ok := w.regionOf(ix.X, p); ok {
+			if i, ok := w.evalInt(ix.Index, p); ok && tok == token.ASSIGN {
+				if w.mentionsRegion(rhs, p) {
+					p.mark("region byte computed from the region: " + w.text(st))
+					return
+				}
+				w.write(p, off+i, 1)
+				w.collectCalls(rhs, p)
+				return
+			}
+			p.mark("region indexed by a non-constant / compound assignment: " + w.text(st))
+			return
+		}
+	}
+	id, isIdent := lhs.(*ast.Ident)
+	if ce, ok := stripParens(rhs).(*ast.CallExpr); ok && isIdent {
+		if arg, ok := w.nextBytesArg(ce); ok {
+			if p.hasRegion {
+				p.mark("second region on one path: " + w.text(st))
+				return
+			}
+			p.hasRegion = true
+			if v, ok := w.evalInt(arg, p); ok {
+				p.obtained = v
+			} else if src, ok := w.lenOf(arg); ok {
+				p.obtained, p.srcArg = -1, src
+			} else {
+				p.mark("NextBytes with a size that is neither constant nor len(..): " + w.text(st))
+				return
+			}
+			p.aliases[id.Name] = 0
+			delete(p.ints, id.Name)
+			return
+		}
+	}
+	if isIdent {
+		if off, ok := w.regionOf(rhs, p); ok {
+			p.aliases[id.Name] = off
+			delete(p.ints, id.Name)
+			return
+		}
+		if w.mentionsRegion(rhs, p) {
+			p.mark("region used in an expression: " + w.text(st))
+			return
+		}
+		delete(p.aliases, id.Name)
+		if v, ok := w.evalInt(rhs, p); ok && (tok == token.ASSIGN || tok == token.DEFINE) {
+			p.ints[id.Name] = v
+		} else {
+			delete(p.ints, id.Name)
+		}
+		w.collectCalls(rhs, p)
+		return
+	}
+	if w.mentionsRegion(lhs, p) || w.mentionsRegion(rhs, p) {
+		p.mark("region used in an assignment: " + w.text(st))
+		return
+	}
+	w.collectCalls(rhs, p)
+}
+
+// loops that assign alias[i] for every i of a known range
+func (w *swWalker) loop(st ast.Stmt, p *swPath) bool {
+	var idx string
+	var body *ast.BlockStmt
+	lo, n := 0, -2 // n: count, -1 = len(srcArg), -2 = not understood
+	switch s := st.(type) {
+	case *ast.RangeStmt:
+		id, ok := s.Key.(*ast.Ident)
+		if !ok || s.Tok != token.DEFINE {
+			return false
+		}
+		idx, body = id.Name, s.Body
+		if v, ok := w.evalInt(s.X, p); ok {
+			n = v
+		} else if p.obtained == -1 && flat(w.fset, stripParens(inlineLocals(s.X, w.defs))) == p.srcArg {
+			n = -1
+		}
+	case *ast.ForStmt:
+		as, ok := s.Init.(*ast.AssignStmt)
+		if !ok || len(as.Lhs) != 1 || len(as.Rhs) != 1 || as.Tok != token.DEFINE {
+			return false
+		}
+		id, ok := as.Lhs[0].(*ast.Ident)
+		if !ok {
+			return false
+		}
+		v, ok := w.evalInt(as.Rhs[0], p)
+		inc, ok2 := s.Post.(*ast.IncDecStmt)
+		be, ok3 := s.Cond.(*ast.BinaryExpr)
+		if !ok || !ok2 || !ok3 || inc.Tok != token.INC || w.text(inc.X) != id.Name || be.Op != token.LSS || w.text(be.X) != id.Name {
+			return false
+		}
+		idx, body, lo = id.Name, s.Body, v
+		if hi, ok := w.evalInt(be.Y, p); ok {
+			n = hi - lo
+		} else if src, ok := w.lenOf(be.Y); ok && p.obtained == -1 && src == p.srcArg && lo == 0 {
+			n = -1
+		}
+	default:
+		return false
+	}
+	if n == -2 {
+		return false
+	}
+	// the body: assignments alias[idx (+c)] = e not reading the region, anything else must not touch the region
+	wrote := false
+	for _, b := range body.List {
+		as, ok := b.(*ast.AssignStmt)
+		if ok && len(as.Lhs) == 1 && len(as.Rhs) == 1 && as.Tok == token.ASSIGN {
+			if ix, ok := as.Lhs[0].(*ast.IndexExpr); ok {
+				if off, ok := w.regionOf(ix.X, p); ok {
+					c, okc := 0, false
+					switch e := stripParens(ix.Index).(type) {
+					case *ast.Ident:
+						okc = e.Name == idx
+					case *ast.BinaryExpr:
+						if e.Op == token.ADD {
+							if w.text(e.X) == idx {
+								c, okc = w.evalInt(e.Y, p)
+							} else if w.text(e.Y) == idx {
+								c, okc = w.evalInt(e.X, p)
+							}
+						}
+					}
+					if !okc || w.mentionsRegion(as.Rhs[0], p) {
+						return false
+					}
+					if n == -1 {
+						if off+c != 0 {
+							return false
+						}
+						p.all = true
+					} else {
+						w.write(p, off+c+lo, n)
+					}
+					wrote = true
+					continue
+				}
+			}
+		}
+		if w.mentionsRegion(b, p) {
+			return false
+		}
+		if _, isBranch := b.(*ast.BranchStmt); isBranch {
+			return false
+		}
+	}
+	return wrote
+}
+
+// a same-package helper that is handed (a part of) the region
+func (w *swWalker) helper(ce *ast.CallExpr, p *swPath, st ast.Stmt) ([]*swPath, bool) {
+	fd := calleeOf(w.funcs, ce)
+	if fd == nil || fd.Body == nil || fd.Type.Params == nil || w.depth >= 3 {
+		return nil, false
+	}
+	var params []string
+	for _, f := range fd.Type.Params.List {
+		for _, nm := range f.Names {
+			params = append(params, nm.Name)
+		}
+	}
+	if len(params) != len(ce.Args) {
+		return nil, false
+	}
+	q := p.clone()
+	q.aliases, q.ints = map[string]int{}, map[string]int{}
+	for i, a := range ce.Args {
+		if off, ok := w.regionOf(a, p); ok {
+			q.aliases[params[i]] = off
+		} else if w.mentionsRegion(a, p) {
+			return nil, false
+		} else if v, ok := w.evalInt(a, p); ok {
+			q.ints[params[i]] = v
+		}
+	}
+	sub := &swWalker{fset: w.fset, funcs: w.funcs, consts: w.consts, recv: "\x00", defs: singleDefs(fd), depth: w.depth + 1}
+	if fd.Recv != nil && len(fd.Recv.List) == 1 && len(fd.Recv.List[0].Names) == 1 {
+		if se, ok := ce.Fun.(*ast.SelectorExpr); ok {
+			if id, ok := se.X.(*ast.Ident); ok && id.Name == w.recv {
+				sub.recv = fd.Recv.List[0].Names[0].Name
+			}
+		}
+	}
+	out := sub.stmts(fd.Body.List, []*swPath{q})
+	for _, r := range out {
+		r.done = false
+		r.aliases, r.ints = map[string]int{}, map[string]int{}
+		for k, v := range p.aliases {
+			r.aliases[k] = v
+		}
+		for k, v := range p.ints {
+			r.ints[k] = v
+		}
+	}
+	return out, true
+}
+
+func (w *swWalker) call(ce *ast.CallExpr, p *swPath, st ast.Stmt) []*swPath {
+	one := []*swPath{p}
+	fn := w.text(ce.Fun)
+	// binary.<Order>.PutUintNN(alias, e)
+	if i := strings.LastIndex(fn, ".PutUint"); i >= 0 && strings.HasPrefix(fn, "binary.") && len(ce.Args) == 2 {
+		if bits, err := strconv.Atoi(fn[i+len(".PutUint"):]); err == nil {
+			if off, ok := w.regionOf(ce.Args[0], p); ok && !w.mentionsRegion(ce.Args[1], p) {
+				w.write(p, off, bits/8)
+				return one
+			}
+		}
+	}
+	// copy(alias, src)
+	if fn == "copy" && len(ce.Args) == 2 {
+		if off, ok := w.regionOf(ce.Args[0], p); ok && !w.mentionsRegion(ce.Args[1], p) {
+			src := flat(w.fset, stripParens(inlineLocals(ce.Args[1], w.defs)))
+			if p.obtained == -1 && off == 0 && (src == p.srcArg || src == "[]byte("+p.srcArg+")") {
+				p.all = true
+				return one
+			}
+			p.mark("copy into the region from a source of another length: " + w.text(st))
+			return one
+		}
+	}
+	if name, ok := w.recvCall(ce); ok {
+		if name == "BackUp" && len(ce.Args) == 1 {
+			if v, ok := w.evalInt(ce.Args[0], p); ok && v >= 0 {
+				p.backup += v
+				return one
+			}
+			if p.hasRegion {
+				p.mark("BackUp by an amount that is not a known constant: " + w.text(st))
+			}
+			return one
+		}
+		if strings.HasPrefix(name, "Write") {
+			for _, a := range ce.Args {
+				if w.mentionsRegion(a, p) {
+					p.mark("region handed to another writer: " + w.text(st))
+					return one
+				}
+			}
+			p.calls = append(p.calls, name)
+			return one
+		}
+	}
+	regionArg := false
+	for _, a := range ce.Args {
+		if w.mentionsRegion(a, p) {
+			regionArg = true
+		}
+	}
+	if regionArg {
+		if out, ok := w.helper(ce, p, st); ok {
+			return out
+		}
+		p.mark("region passed to " + fn)
+		return one
+	}
+	for _, a := range ce.Args {
+		w.collectCalls(a, p)
+	}
+	return one
+}
+
+func (w *swWalker) stmt(st ast.Stmt, p *swPath) []*swPath {
+	one := []*swPath{p}
+	switch s := st.(type) {
+	case *ast.BlockStmt:
+		return w.stmts(s.List, one)
+	case *ast.IfStmt:
+		in := one
+		if s.Init != nil {
+			in = w.stmts([]ast.Stmt{s.Init}, in)
+		}
+		var out []*swPath
+		for _, q := range in {
+			if q.done || q.unknown != "" {
+				out = append(out, q)
+				continue
+			}
+			c := w.text(stripParens(s.Cond))
+			out = append(out, w.stmts(s.Body.List, []*swPath{w.fork(q, c)})...)
+			b := w.fork(q, "!("+c+")")
+			switch e := s.Else.(type) {
+			case nil:
+				out = append(out, b)
+			case *ast.BlockStmt:
+				out = append(out, w.stmts(e.List, []*swPath{b})...)
+			case *ast.IfStmt:
+				out = append(out, w.stmt(e, b)...)
+			}
+		}
+		return out
+	case *ast.SwitchStmt:
+		in := one
+		if s.Init != nil {
+			in = w.stmts([]ast.Stmt{s.Init}, in)
+		}
+		var out []*swPath
+		for _, q := range in {
+			if q.done || q.unknown != "" {
+				out = append(out, q)
+				continue
+			}
+			var neg []string
+			hasDefault := false
+			for _, c := range s.Body.List {
+				cc := c.(*ast.CaseClause)
+				for _, b := range cc.Body {
+					if br, ok := b.(*ast.BranchStmt); ok && br.Tok == token.FALLTHROUGH {
+						q.mark("fallthrough")
+						return append(out, q)
+					}
+				}
+				var cs []string
+				for _, v := range cc.List {
+					t := w.text(stripParens(v))
+					if s.Tag != nil {
+						t = w.text(s.Tag) + "==" + t
+					}
+					cs = append(cs, t)
+				}
+				r := q.clone()
+				r.conds = append(r.conds, neg...)
+				if cc.List == nil {
+					hasDefault = true
+				} else {
+					r.conds = append(r.conds, strings.Join(cs, "||"))
+					neg = append(neg, "!("+strings.Join(cs, "||")+")")
+				}
+				body := cc.Body
+				if n := len(body); n > 0 { // a trailing `break` only leaves the switch
+					if br, ok := body[n-1].(*ast.BranchStmt); ok && br.Tok == token.BREAK && br.Label == nil {
+						body = body[:n-1]
+					}
+				}
+				out = append(out, w.stmts(body, []*swPath{r})...)
+			}
+			if !hasDefault {
+				r := q.clone()
+				r.conds = append(r.conds, neg...)
+				out = append(out, r)
+			}
 		}
 		return out
 	case *ast.ReturnStmt:
 		for _, r := range s.Results {
-			collectSelfCalls(r, recv, p)
-			if p.region != "" && swMentions(fset, r, p.region) {
-				return mark("region escapes")
+			if w.mentionsRegion(r, p) {
+				p.mark("region escapes through return")
+				return one
 			}
+			w.collectCalls(r, p)
 		}
-		return []*swPath{p}
+		p.done = true
+		return one
 	case *ast.AssignStmt:
-		// region := recv.NextBytes(k)
-		if len(s.Lhs) == 1 && len(s.Rhs) == 1 {
-			if ce, ok := s.Rhs[0].(*ast.CallExpr); ok {
-				if name, ok := swSelfCall(ce, recv); ok && name == "NextBytes" && len(ce.Args) == 1 {
-					id, ok := s.Lhs[0].(*ast.Ident)
-					if !ok || p.region != "" {
-						return mark("second / unnamed region")
-					}
-					p.region = id.Name
-					if v, ok := swIntLit(ce.Args[0]); ok {
-						p.obtained = v
-					} else {
-						a := exprString(fset, ce.Args[0])
-						a = strings.TrimSuffix(strings.TrimPrefix(a, "uint64("), ")")
-						if strings.HasPrefix(a, "len(") && strings.HasSuffix(a, ")") {
-							p.obtained, p.srcArg = -1, a[4:len(a)-1]
-						} else {
-							return mark("NextBytes with a non-constant size")
-						}
-					}
-					return []*swPath{p}
-				}
+		if len(s.Lhs) == len(s.Rhs) {
+			for i := range s.Lhs {
+				w.assign(s.Lhs[i], s.Rhs[i], s.Tok, p, st)
 			}
-			// region[i] = e
-			if ix, ok := s.Lhs[0].(*ast.IndexExpr); ok {
-				if id, ok := ix.X.(*ast.Ident); ok && p.region != "" && id.Name == p.region {
-					if i, ok := swIntLit(ix.Index); ok && s.Tok == token.ASSIGN {
-						p.written[i] = true
-						return []*swPath{p}
-					}
-					return mark("region indexed by a non-constant")
-				}
-			}
-			// v = <int>  (size = 3)
-			if id, ok := s.Lhs[0].(*ast.Ident); ok {
-				if v, ok := swIntLit(s.Rhs[0]); ok {
-					p.sizeVar[id.Name] = v
-					return []*swPath{p}
-				}
-				delete(p.sizeVar, id.Name)
-			}
+			return one
 		}
 		for _, r := range s.Rhs {
-			collectSelfCalls(r, recv, p)
+			if w.mentionsRegion(r, p) {
+				p.mark("region used in a multi-value assignment: " + w.text(st))
+				return one
+			}
+			w.collectCalls(r, p)
 		}
-		if p.region != "" && swMentions(fset, s, p.region) {
-			return mark("region used in an assignment")
+		for _, l := range s.Lhs {
+			if id, ok := l.(*ast.Ident); ok {
+				delete(p.ints, id.Name)
+				delete(p.aliases, id.Name)
+			} else if w.mentionsRegion(l, p) {
+				p.mark("region assigned from a multi-value expression: " + w.text(st))
+			}
 		}
-		return []*swPath{p}
-	case *ast.ExprStmt:
-		ce, ok := s.X.(*ast.CallExpr)
+		return one
+	case *ast.DeclStmt:
+		gd, ok := s.Decl.(*ast.GenDecl)
 		if !ok {
-			return mark("expression statement")
+			return one
 		}
-		fn := exprString(fset, ce.Fun)
-		// binary.LittleEndian.PutUintN(region | region[j:], e)
-		if strings.HasPrefix(fn, "binary.LittleEndian.PutUint") && len(ce.Args) == 2 && p.region != "" {
-			w, err := strconv.Atoi(strings.TrimPrefix(fn, "binary.LittleEndian.PutUint"))
-			from, okf := -1, false
-			switch a := ce.Args[0].(type) {
-			case *ast.Ident:
-				if a.Name == p.region {
-					from, okf = 0, true
-				}
-			case *ast.SliceExpr:
-				if id, ok := a.X.(*ast.Ident); ok && id.Name == p.region && a.High == nil && a.Low != nil {
-					from, okf = swIntLit(a.Low)
+		for _, sp := range gd.Specs {
+			vs, ok := sp.(*ast.ValueSpec)
+			if !ok {
+				continue
+			}
+			for i, nm := range vs.Names {
+				switch {
+				case i < len(vs.Values) && len(vs.Values) == len(vs.Names):
+					w.assign(nm, vs.Values[i], token.DEFINE, p, st)
+				case len(vs.Values) == 0:
+					delete(p.aliases, nm.Name)
+					delete(p.ints, nm.Name)
+					if id, ok := vs.Type.(*ast.Ident); ok && isIntConv(id.Name) {
+						p.ints[nm.Name] = 0 // zero value
+					}
+				default:
+					delete(p.aliases, nm.Name)
+					delete(p.ints, nm.Name)
 				}
 			}
-			if err == nil && okf && !swMentions(fset, ce.Args[1], p.region) {
-				for i := 0; i < w/8; i++ {
-					p.written[from+i] = true
-				}
-				return []*swPath{p}
-			}
-			return mark("PutUint on an unexpected slice")
 		}
-		// copy(region, src)
-		if fn == "copy" && len(ce.Args) == 2 && p.region != "" {
-			if id, ok := ce.Args[0].(*ast.Ident); ok && id.Name == p.region {
-				if p.obtained == -1 && exprString(fset, ce.Args[1]) == p.srcArg {
-					p.all = true
-					return []*swPath{p}
+		return one
+	case *ast.IncDecStmt:
+		if id, ok := s.X.(*ast.Ident); ok {
+			if v, ok := p.ints[id.Name]; ok {
+				if s.Tok == token.INC {
+					p.ints[id.Name] = v + 1
+				} else {
+					p.ints[id.Name] = v - 1
 				}
-				return mark("copy from a source of another length")
 			}
+		} else if w.mentionsRegion(s.X, p) {
+			p.mark("region byte incremented: " + w.text(st))
 		}
-		if name, ok := swSelfCall(ce, recv); ok {
-			if name == "BackUp" && len(ce.Args) == 1 {
-				// BackUp(c) | BackUp(c - v)
-				if v, ok := swIntLit(ce.Args[0]); ok {
-					p.backup += v
-					return []*swPath{p}
+		return one
+	case *ast.ExprStmt:
+		if ce, ok := s.X.(*ast.CallExpr); ok {
+			return w.call(ce, p, st)
+		}
+		if w.mentionsRegion(s.X, p) {
+			p.mark("region used in an expression statement: " + w.text(st))
+		}
+		return one
+	case *ast.ForStmt, *ast.RangeStmt:
+		if w.loop(st, p) {
+			return one
+		}
+		if w.mentionsRegion(st, p) {
+			p.mark("loop over the region of a shape that is not understood: " + w.text(st))
+			return one
+		}
+		w.collectCalls(st, p)
+		// values assigned inside the loop are no longer known
+		ast.Inspect(st, func(n ast.Node) bool {
+			switch x := n.(type) {
+			case *ast.AssignStmt:
+				for _, l := range x.Lhs {
+					if id, ok := l.(*ast.Ident); ok {
+						delete(p.ints, id.Name)
+					}
 				}
-				if be, ok := ce.Args[0].(*ast.BinaryExpr); ok && be.Op == token.SUB {
-					if c, ok := swIntLit(be.X); ok {
-						if id, ok := be.Y.(*ast.Ident); ok {
-							if v, ok := p.sizeVar[id.Name]; ok {
-								p.backup += c - v
-								return []*swPath{p}
+			case *ast.IncDecStmt:
+				if id, ok := x.X.(*ast.Ident); ok {
+					delete(p.ints, id.Name)
+				}
+			}
+			return true
+		})
+		return one
+	case *ast.BranchStmt:
+		p.mark("branch statement: " + w.text(st))
+		return one
+	case *ast.EmptyStmt:
+		return one
+	}
+	if w.mentionsRegion(st, p) {
+		p.mark("region used in an unsupported statement: " + w.text(st))
+	} else {
+		w.collectCalls(st, p)
+	}
+	return one
+}
+
+func genSinkWrites(repo string) (string, error) {
+	fset, funcs, err := pkgFuncs(repo, "common")
+	if err != nil {
+		return "", err
+	}
+	// package-level integer constants of the file that declares the sink
+	consts := map[string]int{}
+	if _, f, err := parseFile(repo, "common/zero_copy_sink.go"); err == nil {
+		w0 := &swWalker{fset: fset, consts: consts}
+		for _, d := range f.Decls {
+			if gd, ok := d.(*ast.GenDecl); ok && gd.Tok == token.CONST {
+				for _, sp := range gd.Specs {
+					vs := sp.(*ast.ValueSpec)
+					for i, nm := range vs.Names {
+						if i < len(vs.Values) {
+							if v, ok := w0.evalInt(vs.Values[i], &swPath{}); ok {
+								consts[nm.Name] = v
 							}
 						}
 					}
 				}
-				return mark("BackUp by an unknown amount")
-			}
-			if strings.HasPrefix(name, "Write") {
-				p.calls = append(p.calls, name)
-				for _, a := range ce.Args {
-					if p.region != "" && swMentions(fset, a, p.region) {
-						return mark("region passed on")
-					}
-				}
-				return []*swPath{p}
 			}
 		}
-		if p.region != "" && swMentions(fset, s, p.region) {
-			return mark("region passed to " + fn)
-		}
-		return []*swPath{p}
-	case *ast.DeclStmt:
-		if p.region != "" && swMentions(fset, s, p.region) {
-			return mark("region in a declaration")
-		}
-		return []*swPath{p}
 	}
-	return mark("unsupported statement")
-}
-
-func genSinkWrites(repo string) (string, error) {
-	const rel = "common/zero_copy_sink.go"
-	fset, f, err := parseFile(repo, rel)
-	if err != nil {
-		return "", err
-	}
-	var all []*swPath
 	var methods []string
-	for _, d := range f.Decls {
-		fd, ok := d.(*ast.FuncDecl)
-		if !ok || fd.Recv == nil || len(fd.Recv.List) != 1 || !strings.HasPrefix(fd.Name.Name, "Write") || fd.Body == nil {
-			continue
+	for k := range funcs {
+		if strings.HasPrefix(k, "ZeroCopySink.Write") {
+			methods = append(methods, strings.TrimPrefix(k, "ZeroCopySink."))
 		}
-		if !strings.Contains(exprString(fset, fd.Recv.List[0].Type), "ZeroCopySink") {
-			continue
-		}
-		recv := "_"
+	}
+	sort.Strings(methods)
+	var all []*swPath
+	for _, m := range methods {
+		fd := funcs["ZeroCopySink."+m]
+		recv := "\x00"
 		if len(fd.Recv.List[0].Names) == 1 {
 			recv = fd.Recv.List[0].Names[0].Name
 		}
-		methods = append(methods, fd.Name.Name)
-		start := &swPath{method: fd.Name.Name, written: map[int]bool{}, sizeVar: map[string]int{}}
-		all = append(all, swWalk(fset, recv, fd.Body.List, []*swPath{start})...)
+		w := &swWalker{fset: fset, funcs: funcs, consts: consts, recv: recv, defs: singleDefs(fd)}
+		start := &swPath{method: m, written: map[int]bool{}, aliases: map[string]int{}, ints: map[string]int{}}
+		// function-level constants
+		ast.Inspect(fd.Body, func(n ast.Node) bool {
+			if gd, ok := n.(*ast.GenDecl); ok && gd.Tok == token.CONST {
+				for _, sp := range gd.Specs {
+					vs := sp.(*ast.ValueSpec)
+					for i, nm := range vs.Names {
+						if i < len(vs.Values) {
+							if v, ok := w.evalInt(vs.Values[i], start); ok {
+								start.ints[nm.Name] = v
+							}
+						}
+					}
+				}
+			}
+			return true
+		})
+		all = append(all, w.stmts(fd.Body.List, []*swPath{start})...)
 	}
-	if len(methods) == 0 {
-		// keep the generator total: an empty table makes the theorem about the expected method set fail, not factgen
-		methods = nil
-	}
-	sort.Strings(methods)
 	var sb strings.Builder
 	sb.WriteString("/-! Facts about `common/zero_copy_sink.go`: per `Write*` method and control path, the region obtained from `NextBytes`,\n")
-	sb.WriteString("the byte indices assigned on that path, the amount given back by `BackUp`, and the `Write*` methods called. -/\n")
+	sb.WriteString("the byte indices assigned on that path (through the region, its sub-slice aliases, loops and same-package helpers),\n")
+	sb.WriteString("the amount given back by `BackUp`, and the `Write*` methods called. -/\n")
 	sb.WriteString("namespace OntVerif.Gen.SinkWrites\n\n")
-	sb.WriteString("structure Path where\n  method : String\n  cond : String\n  hasRegion : Bool      -- the path calls NextBytes itself\n  obtained : Nat        -- constant argument of NextBytes (0 when `all`)\n  all : Bool            -- NextBytes(len(p)) followed by copy(region, p)\n  written : List Nat    -- indices assigned on this path\n  backup : Nat          -- bytes given back with BackUp\n  unknown : Bool        -- the walk met a use of the region it does not understand\n  calls : List String   -- Write* methods called on the receiver\n  deriving Repr, DecidableEq\n\n")
+	sb.WriteString("structure Path where\n  method : String\n  cond : String\n  hasRegion : Bool      -- the path calls NextBytes itself\n  obtained : Nat        -- constant argument of NextBytes (0 when `all`)\n  all : Bool            -- NextBytes(len(p)) and every byte copied / assigned from p\n  written : List Nat    -- indices assigned on this path\n  backup : Nat          -- bytes given back with BackUp\n  unknown : Bool        -- the walk met a use of the region it does not understand\n  calls : List String   -- Write* methods called on the receiver\n  deriving Repr, DecidableEq\n\n")
 	sb.WriteString("def methods : List String := [" + swQuoteList(methods) + "]\n\n")
 	sb.WriteString("def paths : List Path := [\n")
 	for i, p := range all {
-		var w []int
+		var ws []int
 		for k := range p.written {
-			w = append(w, k)
+			ws = append(ws, k)
 		}
-		sort.Ints(w)
-		var ws []string
-		for _, k := range w {
-			ws = append(ws, strconv.Itoa(k))
+		sort.Ints(ws)
+		var wss []string
+		for _, k := range ws {
+			wss = append(wss, strconv.Itoa(k))
 		}
 		ob := p.obtained
 		if ob < 0 {
@@ -319,10 +855,10 @@ func genSinkWrites(repo string) (string, error) {
 		}
 		note := ""
 		if p.unknown != "" {
-			note = "  -- " + p.unknown
+			note = "  -- " + strings.ReplaceAll(p.unknown, "\n", " ")
 		}
-		fmt.Fprintf(&sb, "  ⟨%q, %q, %v, %d, %v, [%s], %d, %v, [%s]⟩%s%s\n", p.method, p.cond, p.region != "", ob, p.all,
-			strings.Join(ws, ", "), p.backup, p.unknown != "", swQuoteList(p.calls), sep, note)
+		fmt.Fprintf(&sb, "  ⟨%q, %q, %v, %d, %v, [%s], %d, %v, [%s]⟩%s%s\n", p.method, strings.Join(p.conds, " && "), p.hasRegion, ob, p.all,
+			strings.Join(wss, ", "), p.backup, p.unknown != "", swQuoteList(p.calls), sep, note)
 	}
 	sb.WriteString("]\n\nend OntVerif.Gen.SinkWrites\n")
 	return sb.String(), nil
